@@ -87,10 +87,10 @@ SentC2 == <<-3, 2, 2>>
 \* per mapping: [bad |-> first failing law, img |-> the relabelled images, one per wire map]; every value is computed once
 SentOf(mp, ts, wms) == Bind(LetterTable(mp, NS), LAMBDA tab :
    Bind2(WordImageT(tab, ts[1].w, NS), WordImageT(tab, ts[2].w, NS), LAMBDA A, B : Bind2(TermsImageT(tab, ts, NS), SMulL(A, B), LAMBDA S, AB :
-   Bind([q \in DOMAIN wms |-> [s |-> SRelabel(S, wms[q], NK), a |-> SRelabel(A, wms[q], NK), b |-> SRelabel(B, wms[q], NK)]], LAMBDA R :
+   Bind(TLCEval([q \in DOMAIN wms |-> TLCEval([s |-> SRelabel(S, wms[q], NK), a |-> SRelabel(A, wms[q], NK), b |-> SRelabel(B, wms[q], NK)])]), LAMBDA R :
       [bad |-> First(<< <<mp \o "-relabel-sum", \A q \in DOMAIN wms :
-                             TRUE>>,
-                        <<mp \o "-relabel-product", \A q \in DOMAIN wms : TRUE>> >>),
+                             SEq(R[q].s, SAdd(SScale(GdNorm(ts[1].c), R[q].a), SScale(GdNorm(ts[2].c), R[q].b)))>>,
+                        <<mp \o "-relabel-product", \A q \in DOMAIN wms : SEq(SRelabel(AB, wms[q], NK), SMulL(R[q].a, R[q].b))>> >>),
        img |-> [q \in DOMAIN wms |-> STermsL(R[q].s)]]))))
 SentResult(w1, w2) == Bind2(<<[w |-> w1, c |-> SentC1], [w |-> w2, c |-> SentC2]>>, PSetToSeqL(WireMaps(NS, NK)), LAMBDA ts, wms :
    Bind(<<SentOf("jw", ts, wms), SentOf("par", ts, wms), SentOf("bk", ts, wms)>>, LAMBDA r :
